@@ -200,9 +200,11 @@ def replay_file(mod, path):
     case = dec(rec["case"])
     hygiene()
     try:
-        checked(mod, case)
+        info = checked(mod, case)
     except Violation as v:
         return False, v
+    if info and info.get("known"):  # the check reported a recorded deviation through its info
+        return False, Violation("known", "", {"ids": sorted(info["known"])})
     return True, None
 
 
@@ -257,6 +259,8 @@ def main(argv=None):  # noqa: PLR0912, PLR0915
             print(f"replay passed: {a.replay}")
             return 0
         e = findings.match(pid, v.kind, v.sig)
+        if v.kind == "known":
+            e = next((x for x in findings.known_for(pid) if x["id"] in v.sig["ids"]), None)
         if e is not None:
             print(f"KNOWN-FINDING: property={pid} {e['what']}")
             return 0
@@ -278,6 +282,8 @@ def main(argv=None):  # noqa: PLR0912, PLR0915
         replayed += 1
         if not ok:
             e = findings.match(pid, v.kind, v.sig)
+            if v.kind == "known":
+                e = next((x for x in findings.known_for(pid) if x["id"] in v.sig["ids"]), None)
             if e is not None:
                 known_hits[e["id"]] = known_hits.get(e["id"], 0) + 1
             else:
